@@ -1,7 +1,8 @@
 """Reference BIP39 (entropy <-> mnemonic sentence, seed) and BIP32 master-key serialisation.
 
 Written from BIP-0039 / BIP-0032 / RFC 8018; shares no code with buidl and never imports it.
-Only hashlib / hmac / struct / unicodedata-free string handling are used.
+Only hashlib / hmac / struct are used (English words and the separator are ASCII, so the NFKD
+normalisation the specification asks for is the identity on sentences; passphrases are taken as bytes).
 
 The English word list is embedded (it is specification data).  It is validated by the SHA-256 of the
 canonical `english.txt` (one word per line, trailing newline) which is pinned here from the BIP39
